@@ -98,6 +98,13 @@ def build(case):
     elif ctx == "reader-first":
         callers.append(Caller(1, [step_for(scheme, "a.test", "s1", "get")]))
         callers[1].start_first = True
+    elif ctx == "held-sibling":
+        # an earlier response on the same origin (HTTP/2: an earlier stream of the same connection) stays OPEN until the victim is done
+        hold = step_for(scheme, "a.test", "s1", "get")
+        hold["mode"] = "hold"
+        hold["release_after"] = [0]
+        callers.append(Caller(1, [hold]))
+        callers[1].start_first = True
     elif ctx == "sibling-first":
         # an upload of another caller to the same origin is under way when the victim arrives (on HTTP/2: same connection, the sibling's writes
         # hold the connection's write lock while they are in flight)
